@@ -402,7 +402,6 @@ func r07_5(c *Ctx, r *Report) {
 	_ = n
 }
 
-
 // validSolarCopy: the local is initialised by copying a whole Solar (*p) and afterwards only its hour, minute
 // and second are stored, with constants inside their ranges: the copy is as valid as the original.
 func validSolarCopy(al *ssa.Alloc) bool {
